@@ -43,7 +43,9 @@ Meaningful(c) ==
   /\ (c.site \notin SigSites => c.kt = "-" /\ c.cls \in {"none", "wrongsecret", "absent", "stale", "degenerate", "replayed"})
   /\ (c.cls = "replayed" => c.site = "phafin")
   /\ (c.cls = "degenerate" => c.site = "srp" \/ c.site \in SigSites)
-  /\ (c.cls = "absent" => c.site = "checker" /\ (c.role = "c" => c.ver = 3))
+  \* (at site "srp": the ClientHello names an SRP user while a certificate suite is negotiated - no SRP proof is made at
+  \*  all; the handshake may complete, the user name must not be attributed)
+  /\ (c.cls = "absent" => (c.site = "srp" \/ (c.site = "checker" /\ (c.role = "c" => c.ver = 3))))
   /\ (c.cls = "stale" => c.site = "binder")
   /\ (c.site = "ske12" => c.ver \in 0..3 /\ c.kt \in {"rsa", "ecdsa", "dsa", "p384", "p521", "ed448"}
                           /\ (c.kt \in {"ecdsa", "p384", "p521"} => c.ver >= 1) /\ (c.kt = "ed448" => c.ver = 3))
@@ -70,7 +72,7 @@ Cases == {c \in [site : Sites, cls : Classes, kt : KeyTypes, ver : 0..4, role : 
             /\ (c.site \in {"cv12", "ccv13", "phacv", "phafin", "srp", "binder"} => c.role = "s")}
 
 ProofValid(c) == c.cls = "none"
-MayFallBack(c) == c.cls = "stale"
+MayFallBack(c) == c.cls = "stale" \/ (c.cls = "absent" /\ c.site = "srp")
 
 VARIABLES cs, phase, peerId, proved
 vars == <<cs, phase, peerId, proved>>
